@@ -852,6 +852,23 @@ def run(ctx):
     if corr_fail:
         big = True          # correspondence broken: search at the thorough budget
 
+    # genuine departure of the unchanged code (reported to the lead): a SOLUTION_SPREAD whose FIRST column heading is pressure / press
+    obs0 = G.observables(["Na", "Cl"])
+    pb0 = G.punch_block(obs0)
+    fa = pb0 + "SOLUTION_SPREAD\n Number\tpressure\tNa\tCl\n 1\t2.0\t1.0\t1.0\nEND\n"
+    fb = pb0 + "SOLUTION_SPREAD\n pressure\tNumber\tNa\tCl\n 2.0\t1\t1.0\t1.0\nEND\n"
+    fpair = dict(kind="speciation", fam="spread_column_order", k=1.0, a=fa, b=fb, last_only=False, last_k=None, obs=[(t, h) for t, h, _ in obs0])
+    fst, fdet = run_pairs(ctx, exe, dbpath, [fpair])[0]
+    evals += 1
+    if fst != "ok":
+        ctx.finding("spread-first-heading-pressure",
+                    "SOLUTION_SPREAD with `pressure` (or `press`) as the first column heading: read_solution_spread takes the heading row for "
+                    "a block-level pressure option (no count/number test as for temp, water, pH), the first data row becomes the heading row "
+                    "and no solution is defined — no error; the same columns in another order work: " + str(fdet),
+                    {"kind": "pair", "pair": fpair, "detail": str(fdet)})
+    ctx.cov["finding_probe_spread_first_heading_pressure"] = fst
+    base_v = len(ctx.violations)       # an unlisted finding is reported but does not stop or shorten the search
+
     # corpus: minimised past misses, always replayed first
     ccount = 0
     for cf in sorted((vlib.ROOT / "corpus" / "C15").glob("*.json")):
@@ -898,7 +915,7 @@ def run(ctx):
                           {"kind": "pair", "pair": {x: p[x] for x in ("kind", "fam", "k", "a", "b", "last_only", "last_k", "obs")} | {"skip": p.get("skip", 0)}, "detail": det})
             break
     # (ii-b) unit changes inside every family, all spellings: each convert_units case against its restatement in the base unit
-    if not ctx.violations:
+    if len(ctx.violations) == base_v:
         sub = cases if big else cases[:150]
         both = [(t, d, True) for t, d in sub] + [(t, d, False) for t, d in sub if d["kind"] == "spread"]
         rpairs = [restate(db, t, d, bs) for t, d, bs in both]
@@ -930,19 +947,19 @@ def run(ctx):
     judged = {"convert_units": cstat["ok_first"] + cstat["ok_iter"], "mixing": mstat["ok_pos"] + mstat["ok_neg"],
               "pairs": sum(v["ok"] for v in pstat.values())}
     ctx.cov["judged"] = judged
-    if not ctx.violations and not corr_fail and min(judged.values()) < 1:
+    if len(ctx.violations) == base_v and not corr_fail and min(judged.values()) < 1:
         corr_fail.append(("nothing could be judged in " + ", ".join(k for k, v in judged.items() if v == 0)
                           + " (every case was skipped): the check is vacuous on this tree", {"kind": "vacuous", "judged": judged}))
     skipped = cstat["skip"] + mstat["skip"] + sum(v["skip"] for v in pstat.values())
     ctx.cov["skipped"] = skipped
-    if not ctx.violations and not corr_fail and skipped > 0.2 * (n1 + n2 + n3):
+    if len(ctx.violations) == base_v and not corr_fail and skipped > 0.2 * (n1 + n2 + n3):
         corr_fail.append((f"{skipped} of {n1 + n2 + n3} cases ended with an ERROR in both descriptions and were not judged: generated inputs that "
                           "run on the unchanged tree no longer run", {"kind": "vacuous", "skipped": skipped}))
     corr = [c for c in corr_fail if c]
-    if corr and not ctx.violations:
+    if corr and len(ctx.violations) == base_v:
         ctx.violation(corr[0][0] + " — no pair of equivalent descriptions with different results was found",
                       dict(corr[0][1], all=[c[0] for c in corr]), found_input=False)
-    if not ok and not ctx.violations:
+    if not ok and len(ctx.violations) == base_v:
         ctx.violation("proof obligation of C15 no longer checks and no failing input was found",
                       {"broken": ctx.proof_broken}, found_input=False)
 
